@@ -318,6 +318,79 @@ func seqCase(gen string, seed int, ids []int, ops [][3]int, qs [][]int, rwidx []
 	return rec
 }
 
+// bigRec: Go-side consistency at large sizes 2^k-1, 2^k, 2^k+1 (not evaluated in Coq): predicted root = root after Append =
+// batch root; proofs of the first / middle / last leaf verify and reject another hash
+type bigRec struct {
+	K       string `json:"k"`
+	Seed    int    `json:"seed"`
+	N       int    `json:"n"`
+	Predict bool   `json:"predict"`
+	Batch   bool   `json:"batch"`
+	Proof   bool   `json:"proof"`
+	Reject  bool   `json:"reject"`
+	Panic   string `json:"panic,omitempty"`
+}
+
+func bigRun(o *hx.Out, seed, maxExp int) {
+	want := map[int]bool{}
+	for k := 9; k <= maxExp; k++ {
+		for d := -1; d <= 1; d++ {
+			want[1<<k+d] = true
+		}
+	}
+	t := rmt.NewRegularMerkleTree(newMem())
+	vals := [][]byte{}
+	for n := 1; n <= 1<<maxExp+1; n++ {
+		v := leaf(seed, n-1)
+		var pred []byte
+		if want[n] {
+			path := deepCopy(t.AppendPath())
+			if p := try(func() {
+				if rp := rmt.CalculateRootFromAppendPath(v, path, t.Size()); rp != nil {
+					pred = rp.Root
+				}
+			}); p != "" {
+				o.Put(bigRec{K: "big", Seed: seed, N: n, Panic: "CalculateRootFromAppendPath:" + p})
+				return
+			}
+		}
+		if err := t.Append(v); err != nil {
+			o.Put(bigRec{K: "big", Seed: seed, N: n, Panic: "Append:" + err.Error()})
+			return
+		}
+		vals = append(vals, v)
+		if !want[n] {
+			continue
+		}
+		rec := bigRec{K: "big", Seed: seed, N: n}
+		pending(rec)
+		root := t.Root()
+		rec.Predict = hx32(pred) == hx32(root)
+		if p := tryFor(20*time.Second, func() { rec.Batch = hx32(rmt.CalculateRoot(vals)) == hx32(root) }); p != "" {
+			rec.Panic = "CalculateRoot:" + p
+			o.Put(rec)
+			return
+		}
+		rec.Proof, rec.Reject = true, true
+		for _, pos := range []int{0, n / 2, n - 1} {
+			qh := [][]byte{leafHash(vals[pos])}
+			var proof *rmt.Proof
+			var err error
+			if p := try(func() { proof, err = t.GenerateProof(qh) }); p != "" || err != nil {
+				rec.Proof, rec.Panic = false, "GenerateProof:"+p
+				break
+			}
+			if p := try(func() {
+				rec.Proof = rec.Proof && rmt.VerifyProof(qh, proof, root)
+				rec.Reject = rec.Reject && !rmt.VerifyProof([][]byte{leafHash(other(seed, pos))}, proof, root)
+			}); p != "" {
+				rec.Proof, rec.Panic = false, "VerifyProof:"+p
+			}
+		}
+		o.Put(rec)
+	}
+}
+
 type rwxRec struct {
 	K     string   `json:"k"`
 	Idx   uint64   `json:"idx"`
@@ -842,6 +915,7 @@ func main() {
 	nupd := flag.Int("nupd", 120, "random update cases")
 	rwmax := flag.Int("rwmax", 40, "all witness positions for sizes 0..rwmax")
 	nseq := flag.Int("nseq", 40, "random update/append scripts over lists with duplicate leaves")
+	bigexp := flag.Int("bigexp", 14, "largest k for the Go-side runs at sizes 2^k-1, 2^k, 2^k+1 (k >= 9; 0 = none)")
 	nrwx := flag.Int("nrwx", 60, "right-witness reconstructions on arbitrary arguments")
 	flag.Parse()
 	r := hx.NewRng(hx.SeedFromEnv())
@@ -1061,6 +1135,10 @@ func main() {
 		if strings.Contains(rec.Panic, "hang") {
 			break // a hung call keeps spinning: one concrete case is enough
 		}
+	}
+	// (f) large sizes, Go side only
+	if *bigexp >= 9 {
+		bigRun(o, seed, *bigexp)
 	}
 	// (d) right witnesses: all positions 0..n+1
 	for n := 0; n <= *rwmax; n++ {
